@@ -70,6 +70,9 @@ SPEC = {
         'sampleSOR_box', 'sampleSOR_box_area', 'sampleSORSparse_box', 'coopSampleS_box', 'ddnTransitionProbability_nonneg',
         # exact-arithmetic justification of fixes/C08-4 (scale by the largest entry, then normalise)
         'normalize_scaled_eq',
+        # end-to-end statements for the code as it is now (constructor + sampler, tolerance, double avg)
+        'vose_sampler_in_range', 'vose_selects_valid', 'vose_selects_double_avg', 'sampleSRSparse_selects_valid', 'coopSampleS_factor_selects_valid',
+        'sampleSOR_obs_selects_valid', 'sampleSORSparse_obs_selects_valid', 'sampleORSparse_selects_valid', 'dirichlet_as_projection',
     ]],
     'harness': 'harness/c08.cpp',
     'harness_flags': _harness_flags(),
@@ -84,10 +87,16 @@ SPEC = {
                  'makeRandomProbability, VoseAliasSampler::sampleProbability',
                  'src/Utils/Probability.cpp: projectToProbability, VoseAliasSampler::VoseAliasSampler',
                  'src/MDP/Model.cpp, src/MDP/SparseModel.cpp: sampleSR; include/AIToolbox/POMDP/Model.hpp, SparseModel.hpp: sampleSOR, sampleOR (as compositions)',
-                 'src/Factored/MDP/CooperativeModel.cpp: sampleSR as a per-factor composition (modelled and proved in range; not driven by the harness)'],
+                 'src/Factored/MDP/CooperativeModel.cpp: sampleSR, sampleSRs (per-factor scans, factored reward, per-basis rewards); '
+                 'src/Factored/Utils/BayesianNetwork.cpp: DDNGraph::push (startIds_), getIds, getId, DDN::getTransitionProbability; '
+                 'src/Factored/Utils/FactoredMatrix.cpp: FactoredMatrix2D::getValue — all driven by the harness with the whole model on the protocol line',
+                 'src/MDP/SparseModel.cpp sampleSR, include/AIToolbox/POMDP/SparseModel.hpp sampleSOR/sampleOR over the stored sparse rows and the stored reward table',
+                 'include/AIToolbox/Utils/Probability.hpp: sampleDirichletDistribution, sampleBetaDistribution as functions of their gamma draws'],
     'assumptions': ['libstdc++ std::uniform_real_distribution<double>(a,b) draws one canonical u in [0,1) per call (2 engine words) and returns a+u*(b-a); the harness measures the value it returns for the scripted words, the driver checks the word count',
                     'std::sort is modelled by List.mergeSort (result depends only on the multiset: randomProbability_perm_invariant)',
                     'VoseAliasSampler table is private: reconstructed behaviourally (switch point of each column found by bisection), cross-checked by vsample lines',
                     'avg = 1.0/n is passed to the model as the exact double the code computes; vose_correct instantiates avg = 1/n, vose_correct_any_avg / vose_correct_double_avg bound the effect of avg = fl(1/n)',
-                    'Eigen compressed row-major storage: InnerIterator of a row is an index into flat arrays (model of the walk-off)'],
+                    'Eigen compressed row-major storage: InnerIterator of a row visits its stored entries in column order',
+                    'std::gamma_distribution is not modelled: its draws are replayed from a copy of the engine and assumed positive and finite (draws that underflow to 0 are skipped and counted)',
+                    'projectToProbability: finite inputs only (NaN / +-inf entries are outside the quantifier, see docs/C08.md); overflow of the double sum is finding C08-project-sum-overflow'],
 }
